@@ -17,6 +17,7 @@ pub fn generate(stream: &str, seed: u64, n: usize, emit: &mut dyn FnMut(String))
 		"crc" => crc::generate(seed, n, emit),
 		"api" => api::generate(seed, n, emit),
 		"rt" => ser::generate_rt(seed, n, emit),
+		"rt-td" => ser::generate_rt_td(seed, n, emit),
 		"chain" => schema::generate_chain(emit),
 		"single" => ser::generate_single(seed, n, emit),
 		"schema" | "schema-bad" => schema::generate(stream, seed, n, emit),
